@@ -175,19 +175,29 @@ class C08(Check):
     N_THOROUGH = 2500
     SHARD = 12
     RULE = ("real waddrmgr (Create with FastScryptOptions, one of the scopes BIP0084/BIP0044, unlocked) on a real bbolt file behind "
-            "harness/internal/abortdb; 86 systematic histories (every write operation alone in an aborted / dry-run / failed-commit "
-            "transaction, cold and warm caches, followed by a committed issuance; same-transaction patterns); 12 (thorough 150) histories "
+            "harness/internal/abortdb; 116 systematic histories (every write operation alone in an aborted / dry-run / failed-commit "
+            "transaction, cold and warm caches, followed by a committed issuance; same-transaction patterns; imported xpub accounts "
+            "- NewAccountWatchingOnly with/without fingerprint and address-schema override - cached, used, renamed in committed and "
+            "rolled-back transactions, extended, number reuse); 12 (thorough 150) histories "
             "through the real wallet.Wallet on a funded wallet: NewAddress, NewChangeAddress, CreateSimpleTx and CreateSimpleTx(dryRun=true); "
             "random histories of 3-8 (thorough 3-12) transactions x 1-3 operations, fate commit/caller abort/ErrDryRunRollBack/failed "
             "commit, three generator modes (wild; aborted transactions hold only issuance+reads = the dry-run scenario; aborted "
-            "transactions hold only operations without eager memory updates). After EVERY transaction the file is copied (DB.Copy), opened "
+            "transactions hold only operations without eager memory updates); half of the random histories import xpub accounts (5 xpubs "
+            "derived in the harness from other seeds, each imported at most once). After EVERY transaction the file is copied (DB.Copy), opened "
             "with a fresh waddrmgr.Open, and both managers answer: AccountProperties/AccountName/LastExternal/LastInternalAddress for every "
             "account and the next unused number, the imported account, LookupAccount for every name, LastAccount, Address()+Used() for "
             "every address issued by a committed transaction, the last derived and the next 3 unissued indices per branch, all import "
             "candidates, SyncedTo, Birthday, BirthdayBlock, BlockHash for recent heights. Compared: per-operation outcomes and both answer "
-            "columns with the Coq model; running vs fresh = the oracle. non-trivial = history holds a rolled-back transaction with a write "
+            "columns with the Coq model; AccountProperties is compared incl. IsWatchOnly / imported xpub / MasterKeyFingerprint / AddrSchema, Address() incl. "
+            "AddrType and DerivationInfo fingerprint; the fresh manager is unlocked like the running one. running vs fresh = the oracle. non-trivial = history holds a rolled-back transaction with a write "
             "operation AND a later committed transaction; distinct by input")
-    ASSUMPTIONS = ["manager stays unlocked; no watch-only accounts; one key scope per history (scoped managers share no cache)",
+    ASSUMPTIONS = ["manager stays unlocked (and is not itself watch-only); one key scope per history (scoped managers share no cache); "
+                   "accounts are default or imported-xpub (watch-only) accounts",
+                   "a chained address is identified with (account number, branch, index): with imported accounts a rolled-back "
+                   "transaction never reads an account it has just created (a later account could reuse the number with another key), "
+                   "and an xpub is imported at most once per history",
+                   "ExtendAddresses on an imported account while unlocked panics on the pinned code (finding S3, C03); the model transcribes "
+                   "the panic, the harness probes it at start-up and stops extending imported accounts if the source stops panicking",
                    "block time stamps handed to SetSyncedTo lie in [0, 2^32) seconds (the database keeps 32 bits)",
                    "heights/indices far below the int32/uint32 limits; fault-free database (write faults are C10)",
                    "addresses are identified with their derivation path through a table derived in the harness with hdkeychain",
